@@ -228,6 +228,30 @@ macro_rules! kind_from {
     }};
 }
 
+/// the same for a special-kind quantity that has no named default-kind twin: the default-kind type is
+/// spelled as `Quantity<ISQ<…>, U, V>` (exponents in system order L M T I Th N J)
+macro_rules! kind_from_isq {
+    ($cx:ident, $V:ty, $ms:ident :: $Qs:ident, [$($e:ident),*], $Ul:ident, $ul:expr, $Ur:ident, $ur:expr) => {{
+        if $cx.take() {
+            use uom::typenum::*;
+            type Dd = uom::si::ISQ<$($e),*>;
+            type S_l = uom::si::$ms::$Qs<$Ul<$V>, $V>;
+            type S_r = uom::si::$ms::$Qs<$Ur<$V>, $V>;
+            type D_l = Quantity<Dd, $Ul<$V>, $V>;
+            type D_r = Quantity<Dd, $Ur<$V>, $V>;
+            let lp = join_enc(&base_pows::<Dd, $Ul<$V>, $V>());
+            let rp = join_enc(&base_pows::<Dd, $Ur<$V>, $V>());
+            let mut rng = $cx.rng(concat!(stringify!($V), "fromisq", stringify!($ms), $ul, $ur));
+            for (a, _b) in pairs::<$V>(&mut rng, $cx.n) {
+                let r1: Option<$V> = g(|| { let t: D_l = q!(S_r, a.clone()).into(); t.value });
+                writeln!($cx.out, "from {} {}->isq {} {} {} {} {} {}", <$V as Val>::NAME, stringify!($ms), $ul, $ur, lp, rp, a.enc(), enc_opt(&r1)).unwrap();
+                let r2: Option<$V> = g(|| { let t: S_l = S_l::from(q!(D_r, a.clone())); t.value });
+                writeln!($cx.out, "from {} isq->{} {} {} {} {} {} {}", <$V as Val>::NAME, stringify!($ms), $ul, $ur, lp, rp, a.enc(), enc_opt(&r2)).unwrap();
+            }
+        }
+    }};
+}
+
 macro_rules! mixed_all {
     ($cx:ident, $V:ty, $Ul:ident, $ul:expr, $Ur:ident, $ur:expr) => {
         mixed_same_dim!($cx, $V, length::Length, $Ul, $ul, $Ur, $ur);
@@ -257,6 +281,10 @@ macro_rules! mixed_all {
         kind_from!($cx, $V, mass_concentration::MassConcentration, mass_density::MassDensity, $Ul, $ul, $Ur, $ur);
         kind_from!($cx, $V, angular_velocity::AngularVelocity, frequency::Frequency, $Ul, $ul, $Ur, $ur);
         kind_from!($cx, $V, information_rate::InformationRate, frequency::Frequency, $Ul, $ul, $Ur, $ur);
+        // constituent-concentration kinds with amount-of-substance / temperature exponents (no named twin)
+        kind_from_isq!($cx, $V, molar_concentration::MolarConcentration, [N3, Z0, Z0, Z0, Z0, P1, Z0], $Ul, $ul, $Ur, $ur);
+        kind_from_isq!($cx, $V, molality::Molality, [Z0, N1, Z0, Z0, Z0, P1, Z0], $Ul, $ul, $Ur, $ur);
+        kind_from_isq!($cx, $V, catalytic_activity_concentration::CatalyticActivityConcentration, [N3, Z0, N1, Z0, Z0, P1, Z0], $Ul, $ul, $Ur, $ur);
     };
 }
 
